@@ -1769,7 +1769,14 @@ class Engine:
                 c, v = outs[0]
                 st.facts, st.events = c.facts, c.events
                 return v
-        args = [self.ev(a, st) for a in node.args]
+        args = []
+        for a in node.args:
+            v = self.ev(a, st)
+            if isinstance(v, tuple) and v[:1] == ("star",) and isinstance(v[1], tuple) and v[1][:1] == ("tuple",) \
+                    and not any(isinstance(x, tuple) and x[:1] == ("star",) for x in v[1][1]):
+                args.extend(v[1][1])           # f(*[a, b, c]) is f(a, b, c)
+            else:
+                args.append(v)
         kws = {k.arg: self.ev(k.value, st) for k in node.keywords if k.arg is not None}
         res = self._call_value(node, st, name, recv, attr, args, kws)
         self.emit(st, "call", node, name=name, recv=recv, attr=attr, args=args, kws=kws, value=res)
